@@ -129,6 +129,14 @@ func TestC01Rapid(t *testing.T) {
 			o.ElNames = []string{"é", "中文", "имя"} // multi-byte names: the scanner counts bytes, the grammar counts characters
 			o.AtNames = []string{"ключ", "x"}
 		}
+		keywordNames := !prefixed && !unicodeNames && shape != "doc:many-attributes" && rapid.IntRange(0, 9).Draw(rt, "keyword-names") == 9
+		if keywordNames {
+			// elements and attributes named like operators, axes, node types and functions:
+			// after '/', '::', '@', '[' or at the start a name is a name test, whatever it spells
+			o.ElNames = []string{"div", "and", "text", "child", "last"}
+			o.AtNames = []string{"or", "node"}
+			unicodeNames = true // (the generator takes its names from the options below)
+		}
 		doc := xgen.Doc(rt, o)
 		ctx := xgen.Context(rt, doc, 4)
 		g := xgen.NewG(rt, doc)
